@@ -35,12 +35,13 @@ const H_ALIAS_F: u16 = 17;
 const F_REASSIGN: u16 = 18;
 const H_CALLS_F: u16 = 19;
 const H_CALLS_G: u16 = 20;
-const N_OPS: u16 = 21;
+const PRINT_SH: u16 = 21;
+const N_OPS: u16 = 22;
 
-const OP_NAMES: [&str; 21] = [
+const OP_NAMES: [&str; 22] = [
     "x := k", "x = k", "print(x)", "{", "fn f() {", "fn g() {", "while(2) {", "for(2) {", "}",
     "f()", "g()", "return closure", "h = f()", "h()", "h = closure", "guarded f()", "if true {",
-    "h = f", "f = closure", "h = closure calling f", "h = closure calling g",
+    "h = f", "f = closure", "h = closure calling f", "h = closure calling g", "print({x}.x)",
 ];
 
 #[derive(Clone, Copy, PartialEq, Debug)]
@@ -102,6 +103,7 @@ impl Alphabet for Alpha {
             let ok = match op {
                 DECL | ASSIGN => true,
                 PRINT => last != Some(PRINT),
+                PRINT_SH => last != Some(PRINT_SH) && last != Some(PRINT),
                 OPEN_BLOCK | OPEN_WHILE | OPEN_FOR => st.open.len() < 4,
                 OPEN_IF => self.rich && st.open.len() < 4,
                 OPEN_F => !st.f_def && st.open.len() < 4,
@@ -143,6 +145,7 @@ impl Alphabet for Alpha {
                 s.next_k += 1;
             }
             PRINT => s.text.push_str("print(x)\n"),
+            PRINT_SH => s.text.push_str("print({x}.x)\n"),
             OPEN_BLOCK => {
                 s.text.push_str("{\n");
                 s.open.push((Open::Block, 0, false));
